@@ -155,10 +155,10 @@ def replay_gen(payload):
             for v in inst["nodes"]:
                 c2, c1 = m2.get_cpds(vn[v]), model.get_cpds(vn[v])
                 if v in S:
-                    if len(c2.variables) != 1 or abs(float(c2.values.sum()) - 1) > 1e-9:
+                    if len(c2.variables) != 1 or not (abs(float(c2.values.sum()) - 1) <= 1e-9):
                         fail("BayesianNetwork.do", "intervened_cpd_not_parent_free", [str(q) for q in c2.variables], n_do=len(S))
                         break
-                elif list(c2.variables) != list(c1.variables) or abs(c2.values - c1.values).max() > 1e-12 or c2 is c1:
+                elif list(c2.variables) != list(c1.variables) or not (abs(c2.values - c1.values).max() <= 1e-12) or c2 is c1:
                     fail("BayesianNetwork.do", "other_cpd_changed_or_shared", str(v), n_do=len(S))
                     break
             # ---- interventional query
